@@ -48,6 +48,18 @@ static struct { const char *name; int arity; void (*fp)(void); } ftab[] = {
   F3(esl_lognormal_pdf), F3(esl_lognormal_logpdf),
   { NULL, 0, NULL }
 };
+typedef double (*g_t)(double, void *);
+#define G(n, k) { #n, k, (void (*)(void)) n }
+static struct { const char *name; int arity; void (*fp)(void); } gtab[] = {   /* generic API: f(x, void *params) */
+  G(esl_exp_generic_pdf, 3), G(esl_exp_generic_cdf, 3), G(esl_exp_generic_surv, 3), G(esl_exp_generic_invcdf, 3),
+  G(esl_gumbel_generic_pdf, 3), G(esl_gumbel_generic_cdf, 3), G(esl_gumbel_generic_surv, 3), G(esl_gumbel_generic_invcdf, 3),
+  G(esl_gev_generic_pdf, 4), G(esl_gev_generic_cdf, 4), G(esl_gev_generic_surv, 4), G(esl_gev_generic_invcdf, 4),
+  G(esl_wei_generic_pdf, 4), G(esl_wei_generic_cdf, 4), G(esl_wei_generic_surv, 4), G(esl_wei_generic_invcdf, 4),
+  G(esl_sxp_generic_pdf, 4), G(esl_sxp_generic_cdf, 4), G(esl_sxp_generic_surv, 4), G(esl_sxp_generic_invcdf, 4),
+  G(esl_gam_generic_pdf, 4), G(esl_gam_generic_cdf, 4), G(esl_gam_generic_surv, 4), G(esl_gam_generic_invcdf, 4),
+  G(esl_normal_generic_pdf, 3), G(esl_normal_generic_cdf, 3), G(esl_normal_generic_surv, 3),
+  { NULL, 0, NULL }
+};
 #define S2(n) { #n, 2, (void (*)(void)) n }
 #define S3(n) { #n, 3, (void (*)(void)) n }
 static struct { const char *name; int arity; void (*fp)(void); } stab[] = {
@@ -134,6 +146,10 @@ static void h_op_inner(void)
       else if (!strcmp(fn, "surv"))    r = ishx ? esl_hxp_surv(x, HX)    : esl_mixgev_surv(x, MG);
       else if (!strcmp(fn, "logsurv")) r = ishx ? esl_hxp_logsurv(x, HX) : esl_mixgev_logsurv(x, MG);
       else if (!strcmp(fn, "invcdf"))  r = ishx ? esl_hxp_invcdf(x, HX)  : esl_mixgev_invcdf(x, MG);
+      else if (!strcmp(fn, "generic_pdf"))    r = ishx ? esl_hxp_generic_pdf(x, HX)    : esl_mixgev_generic_pdf(x, MG);
+      else if (!strcmp(fn, "generic_cdf"))    r = ishx ? esl_hxp_generic_cdf(x, HX)    : esl_mixgev_generic_cdf(x, MG);
+      else if (!strcmp(fn, "generic_surv"))   r = ishx ? esl_hxp_generic_surv(x, HX)   : esl_mixgev_generic_surv(x, MG);
+      else if (!strcmp(fn, "generic_invcdf")) r = ishx ? esl_hxp_generic_invcdf(x, HX) : esl_mixgev_generic_invcdf(x, MG);
       else { free_mix(); h_out("bad-op"); return; }
       if (h_exception_seen) h_out("exception %s", h_status(h_exception_seen)); else h_out("ok %s", h_dbits(r));
     } else if (!strcmp(op, "mixsample")) {
@@ -155,6 +171,11 @@ static void h_op_inner(void)
     else if (!strcmp(fn, "esl_stats_IncGammaP") && n == 2) r = wrap_IncGammaP(a[0], a[1]);
     else if (!strcmp(fn, "esl_stats_IncGammaQ") && n == 2) r = wrap_IncGammaQ(a[0], a[1]);
     else if (!strcmp(fn, "esl_stats_erfc") && n == 1)      r = esl_stats_erfc(a[0]);
+    else if (strstr(fn, "_generic_")) {
+      for (i = 0; gtab[i].name; i++) if (!strcmp(gtab[i].name, fn)) break;
+      if (!gtab[i].name || gtab[i].arity != n) { h_out("bad-op"); return; }
+      r = ((g_t) gtab[i].fp)(a[0], (void *) (a + 1));
+    }
     else {
       for (i = 0; ftab[i].name; i++) if (!strcmp(ftab[i].name, fn)) break;
       if (!ftab[i].name || ftab[i].arity != n) { h_out("bad-op"); return; }
